@@ -80,7 +80,7 @@ Definition fresh (s : pst) : Prop := alt s = [] /\ nom s = 0 /\ cur s = 1 /\ (ma
 Definition mid (k : nat) (s : pst) : Prop := alt s = [] /\ nom s = 0 /\ cur s = k /\ (mat s = 0 \/ mat s = 13)%N.
 
 Definition sound_res (Q : addr -> Prop) (t : tree V) (a : addr) (s : pst) (ed : nat) (md : option nat) : Prop :=
-  exists s' md' out, sel_run V false p t a (s, ed, md) = ((s', ed, md'), out) /\ st_post s s' /\ md_ok ed md' /\
+  exists s' md' out, sel_run V false false p t a (s, ed, md) = ((s', ed, md'), out) /\ st_post s s' /\ md_ok ed md' /\
     forall x, In x out -> exists a', x = rev a ++ a' /\ Q a'.
 
 Lemma st_post_trans : forall s s' s'', st_post s s' -> st_post s' s'' -> st_post s s''.
@@ -145,7 +145,7 @@ Definition run_sound (t : tree V) : Prop :=
 
 (** closing an element whose children were traversed from the live state [q1] *)
 Lemma close_live : forall (Q : addr -> Prop) nm ats sm nl v ks a s ed md q1 c stk0 (trig : bool) Qk,
-  fst (p_start V false p s nm ats) = q1 -> alt q1 = [] -> nom q1 = 0 -> stk q1 = c :: stk0 ->
+  fst (p_start V false false p s nm ats) = q1 -> alt q1 = [] -> nom q1 = 0 -> stk q1 = c :: stk0 ->
   sel_trigger (mat q1) md = trig -> md_ok ed md ->
   cur s = c -> stk s = stk0 ->
   (exists s' md' out,
@@ -311,7 +311,7 @@ Qed.
 (** T10_xpath_sound *)
 Theorem sound_desc : forall (t : tree V) x,
   ntest_ok s1 (t_name t) = false ->
-  In x (matcher_selects V false p t) -> In x (sel_path V (pd steps) t).
+  In x (matcher_selects V false false p t) -> In x (sel_path V (pd steps) t).
 Proof.
   intros [nm ats sm nl v ks] x G Hx. cbn [t_name] in G.
   assert (PS := pstart_fresh 0 [] 0%N nm ats (or_introl (conj eq_refl eq_refl))). rewrite G in PS.
@@ -342,7 +342,7 @@ End SOUND.
 
 Theorem matcher_sound_desc : forall (V : Type) s1 r0 (t : tree V) x,
   ntest_ok s1 (t_name t) = false ->
-  In x (matcher_selects V false (compile_path (mkSpath true (s1 :: r0) None)) t) ->
+  In x (matcher_selects V false false (compile_path (mkSpath true (s1 :: r0) None)) t) ->
   In x (sel_path V (mkSpath true (s1 :: r0) None) t).
 Proof.
   intros V s1 r0 t x G H. unfold compile_path in H. cbn [sp_desc sp_steps sp_attr app] in H. rewrite app_nil_r in H.
